@@ -100,6 +100,20 @@ def gen(chk):
     for c in range(chk.scale(60, 600)):
         a, b = r.choice(pts), r.choice(pts)
         chk.add('ec_pubkey_cmp %s %s' % (pk_obj(a), pk_obj(b)), 'cmp')
+    # keys whose encodings agree in all but the LAST bytes (tiny x: 31 leading zero bytes; a shared random 30/31-byte prefix)
+    near = [q for q in (lift_x(x) for x in range(1, 200)) if q is not None][:40]
+    near += [neg(q) for q in near[:8]]
+    pre = r.bits(240) << 16
+    near2 = [q for q in (lift_x(pre + t) for t in range(0, 400)) if q is not None][:40]
+    for fam in (near, near2):
+        for c in range(chk.scale(60, 600)):
+            a, b = r.choice(fam), r.choice(fam)
+            chk.add('ec_pubkey_cmp %s %s' % (pk_obj(a), pk_obj(b)), 'cmp_keys_differing_in_last_bytes')
+        for n in (2, 3, 7, 20, 40):
+            l = [r.choice(fam) for _ in range(n)]
+            chk.add('ec_pubkey_sort %s' % ''.join(pk_obj(q) for q in l), 'sort_keys_differing_in_last_bytes')
+            l.sort(key=lambda q: ser33(q), reverse=True)
+            chk.add('ec_pubkey_sort %s' % ''.join(pk_obj(q) for q in l), 'sort_keys_differing_in_last_bytes')
     chk.add('ec_pubkey_cmp %s %s' % (z, pk_obj(pts[0])), 'cmp_invalid'); chk.add('ec_pubkey_cmp %s %s' % (pk_obj(pts[0]), z), 'cmp_invalid'); chk.add('ec_pubkey_cmp %s %s' % (z, z), 'cmp_invalid')
     for n in list(range(0, 12)) + [31, 32, 33, 40, 41, 42, 63, 64, 65, 100, 127, 128, 129, 199, 200] + [r.below(200) for _ in range(chk.scale(10, 200))]:
         for rep in range(2):
